@@ -104,7 +104,8 @@ fn packet(k: Kind, pv: V, id: u32, variant: u8) -> Option<AP> {
         Kind::Publish1 => AP::Publish { v, dup: false, qos: 1, retain: false, topic: "t/1".into(), pid: Some(id), props: props5(vec![Prop::u32(pid::MESSAGE_EXPIRY_INTERVAL, 9)]), payload: vec![4] },
         Kind::Publish2 => AP::Publish { v, dup: false, qos: 2, retain: false, topic: "t/2".into(), pid: Some(id), props: vec![], payload: if big { vec![0; 200] } else { vec![] } },
         Kind::Puback => ack_ap(v, AckKind::Puback, id, if big { 1 } else { 0 }),
-        Kind::Pubrec => ack_ap(v, AckKind::Pubrec, id, 0),
+        // variant 1: the application refuses the inbound message (v5.0 reason code >= 0x80)
+        Kind::Pubrec => ack_ap(v, AckKind::Pubrec, id, if big { 2 } else { 0 }),
         Kind::Pubrel => ack_ap(v, AckKind::Pubrel, id, 0),
         Kind::Pubcomp => ack_ap(v, AckKind::Pubcomp, id, 0),
         Kind::Subscribe => AP::Subscribe { v, pid: id, props: vec![], entries: vec![("a/b".into(), 1)] },
@@ -219,6 +220,15 @@ pub fn prepare(c: &mut dyn Conn, cell: &Cell) -> Result<(), String> {
         let e = c.send(&connack)?.map_err(|p| format!("panic {p}"))?;
         if !e.iter().any(|x| matches!(x, NEvent::Send { .. })) {
             return Err(format!("CONNACK not sent: {}", brief_list(&e)));
+        }
+    }
+    if cell.variant == 1 {
+        // an inbound QoS 2 PUBLISH (id 1) was delivered and is not answered yet: the acknowledgement kinds of this variant
+        // refer to a live inbound exchange, so a refused acknowledgement has session state it must leave alone
+        let inbound = publish_ap(cell.hs, 2, false, false, 1, AliasMode::None, Some(1), vec![0xee]);
+        let calls = recv_all(c, &refcodec::encode(&inbound, idw))?;
+        if !flat(&calls).iter().any(|x| matches!(x, NEvent::Recv(AP::Publish { .. }))) {
+            return Err(format!("inbound PUBLISH not delivered: {}", brief_list(&flat(&calls))));
         }
     }
     if cell.stage == Stage::Connected {
